@@ -148,11 +148,24 @@ def emit_tokens(label, pattern: str) -> list:
     """Tokens a task with this emit pattern makes visible (one per log/print/err step)."""
     out = []
     for i, step in enumerate(pattern.split('+')):
-        if step in ('log', 'warn', 'print', 'err', 'iprint', 'nprint', 'exc', 'wprint', 'eprint', 'rprint', 'dlog'):
+        if step in ('log', 'warn', 'print', 'err', 'iprint', 'nprint', 'exc', 'wprint', 'eprint', 'rprint', 'dlog', 'tprint'):
             out.append(f'<{label}.{i}>')
         elif step.startswith('burst'):
             out.extend(f'<{label}.{i}.{j}>' for j in range(int(step[5:])))
     return out
+
+
+class _StreamWrapper:
+    """What tee-like helpers and progress libraries install: writes and flushes go to the wrapped stream."""
+
+    def __init__(self, inner):
+        self.inner = inner
+
+    def write(self, s):
+        return self.inner.write(s)
+
+    def flush(self):
+        return self.inner.flush()
 
 
 def _emit(task):
@@ -198,6 +211,12 @@ def _emit(task):
                 raise ChildKilled()
             import signal
             os.kill(os.getpid(), signal.SIGKILL)
+        elif step == 'tprint':                      # printed by a helper thread of the task, joined before run() goes on
+            th = threading.Thread(target=print, args=(f'out{tok}',))
+            th.start()
+            th.join()
+        elif step == 'wrap':                        # the task puts its own wrapper around the stream it found and leaves it there
+            sys.stdout = _StreamWrapper(sys.stdout)
         elif step == 'flush':
             sys.stdout.flush()
         elif step == 'err':
